@@ -39,7 +39,7 @@ def _c20():
 
     def add(name, oor=False, thorough_only=False):
         shape = name.rsplit("_", 1)[-1]
-        tier = "quick" if (shape in quick_shapes or not shape.startswith("s")) and not thorough_only else "thorough"
+        tier = "quick" if (shape in quick_shapes or not shape.startswith("s") or name in ("c20_split_off_in_s31",)) and not thorough_only else "thorough"
         # in-range: decided under `dev` (debug invariants on: stricter) first, `rel` second;
         # out-of-range: decided under `rel` (what a production build does); in `dev` the
         # crate's own debug invariant panics first, which is an allowed outcome.
@@ -270,7 +270,7 @@ def mux_prop(pid, names, thorough_only=(), notes=None, extra_unwindset=(), **kw)
     # native replay of in-crate harnesses: real bytes / hashbrown / parking_lot / futures /
     # rand; the tokio model (virtual clock, inspectable channels) and the tracing model
     # (scheduling points) stay, because the harness files use their model-only hooks
-    d = dict(kind="mux", module_of=mux_module_of, harnesses=hs, trusted=MUX_TRUST, native_shims=["tokio", "tracing", "tracing-attributes"])
+    d = dict(kind="mux", module_of=mux_module_of, harnesses=hs, trusted=MUX_TRUST, native_shims=["tokio", "tracing", "tracing-attributes", "parking_lot"])
     d.update({k: v for k, v in kw.items() if k != "note"})
     return d
 
@@ -356,6 +356,19 @@ PROPS["C16"] = mux_prop(
     assumptions=["tokio::time::interval semantics as documented (first tick immediate, then every period; MissedTickBehavior::Skip)"],
     explanation="The real ping loop is driven tick by tick under a virtual clock: exactly one Ping per interval; KeepaliveTimeout exactly when more than T elapsed since the last pong (hence not before T and not after T+I); nothing when disabled; clamp T >= I for all option values. The clause 'each ping answered within T => never times out' is posed as stated and fails by design of the implementation (known finding).")
 
+PROPS["C13"] = mux_prop(
+    "C13", pick("c13_"),
+    # the coalescing loop runs at most once per script entry (3), the relay loop once per byte
+    # written or per frame (<= 3 bytes, 2 frames, EOF)
+    extra_unwindset=[(r"poll_write_us", 5), (r"poll_read_us", 7)],
+    note="one poll of the bridge with a solver-scripted local side and a real MuxStream in an arbitrary bounded state",
+    bounds=dict(local_side="fill_buf script of 3 entries over {Pending, 1 byte, 2 bytes, EOF, Err}; write: Pending / Err / accepts <= 1 or 2 bytes; flush and shutdown: Ok / Pending / Err",
+                mux_side="credit 0,1,2; closed flag symbolic; 0..2 queued frames; peer finished or not", polls="one poll per direction (poll_write_us / poll_read_us from Transferring(0)) and one poll of the whole future"),
+    outside=["more than one poll (later polls start from the states reached here only in part: ShuttingDown and Transferring(n>0) are not re-entered)", "local chunks larger than 2 bytes, more than 3 fill_buf results per poll",
+             "a local side that returns Ok(0) from poll_write for a non-empty buffer (AsyncWrite contract violation)"] + COMMON_OUTSIDE,
+    assumptions=["the local side honours the AsyncBufRead/AsyncWrite contracts (unconsumed data is returned again; a Pending result keeps the waker)"],
+    explanation="Exactly the bytes consumed from the local side go into one Push (in order, one credit); bytes written to the local side are a prefix of the peer's data; EOF on either side becomes Finish / shutdown; any error of either side completes the same poll with an error; a Pending result always leaves the bridge's waker with some callee (no orphan Pending).")
+
 PROPS["C15"] = mux_prop(
     "C15", pick("c15_", extra=["c10_bind_disabled_absent", "c10_bind_enabled_absent", "c10_finish_bindreq", "c10_reset_bindreq", "c10_ack_bindreq", "c07_id_alloc"]),
     note="requester with another bind pending and answers in the other order; responder accept / reject / drop; teardown",
@@ -370,10 +383,15 @@ NOT_APPLICABLE = {
     "C01": "end-to-end behaviour over real TCP/UDP/Unix sockets, the tokio multi-thread runtime, hyper and the rusty-penguin binary crate (rustls/aws-lc FFI in its closure): none of it can be compiled by Kani or encoded by hand within reach; its codec-level ingredients are decided under C02, C09, C11, C13, C18",
     "C17": "certificate-path validation, name matching and client-certificate verification happen inside rustls/webpki/aws-lc-rs (C and assembly behind FFI); the repository's part is a four-arm match that only has meaning through those libraries — nothing a solver can encode",
 }
-for _p in ["C08", "C13", "C14"]:
+for _p in ["C08", "C14"]:
     NOT_APPLICABLE.setdefault(_p, WIP)
 
 MANIFEST_TEXT = {
+    "C13": dict(
+        design_ref="DESIGN.md §4-C13",
+        level_text="Bounded model checking of the real CopyBidirectional over a real MuxStream and a local side whose every call result (fill_buf: Pending / 1-2 bytes / EOF / error; write: Pending / partial / error; flush, shutdown: Ok / Pending / error) is chosen by the solver: in one poll of each direction, the bytes put into the Push frame are exactly the bytes consumed from the local side, in order and for one unit of credit; the bytes written locally are a prefix of the peer's data; end-of-stream becomes Finish / shutdown; an error of either side completes that poll with an error (the pinned tree swallowed a read error that followed data and returned Pending with no waker); and a Pending result always leaves the waker with a callee.",
+        level_note="Bounds: one poll per direction from the initial state plus one poll of the joint future; scripts of 3 local read results, chunks <= 2 bytes, <= 2 queued frames, credit <= 2. Multi-poll behaviour is covered only through these one-step contracts. Trusted: the mux models listed under C02.",
+    ),
     "C16": dict(
         design_ref="DESIGN.md §4-C16",
         level_text="PARTIAL. Bounded model checking of the real schedule_ping_task under a virtual clock (model of tokio::time): for the enumerated (interval, timeout) pairs and every pong history the solver can choose over 3-5 ticks, exactly one Ping is sent per interval, KeepaliveTimeout is reported exactly when more than T has elapsed since the last pong or start-up (so never before T and never later than T+I after it), nothing happens when the interval is disabled, and the options API clamps T >= I for all values. The clause 'each ping answered within T never times out' is posed as stated; the solver returns histories where two in-time answers are more than T apart (the loop measures from the last pong, not from the ping) - recorded as a known finding.",
